@@ -133,9 +133,38 @@ def run(spec, acc, ctx, mode):
                                   f"{scheme}: after a later EDBSetup on the same scheme object, searching an earlier index "
                                   f"raised {type(e).__name__}: {e}",
                                   sse.case_desc(scheme, cid, cfg_at_setup, cls, shadow, {"earlier_db": old["db"], "keyword": w}))
+        if st.error is None and same_key and prev.get("tokens"):
+            # a token OBJECT that has already been used on the earlier index under this key is used again on the new one
+            # (one trapdoor per query, sent to every index encrypted under the key)
+            for w, tok in list(prev["tokens"].items()):
+                if (mode == "present") != (w in shadow):
+                    continue
+                acc.count("token_objects_reused_on_a_second_index")
+                want = shadow.get(w, [])
+                try:
+                    got = st.sse.Search(st.edb, tok).get_result_list()
+                except Exception as e:
+                    acc.violation(f"{short}:reused-token-search-raised:{exc_site(e)}",
+                                  f"{scheme}: a token object already used on an earlier index under the same key raised "
+                                  f"{type(e).__name__}: {e} on the new index",
+                                  sse.case_desc(scheme, cid, cfg_at_setup, cls, shadow, {"earlier_db": prev["db"], "keyword": w}))
+                    continue
+                if not sse.result_matches(scheme, got, want):
+                    acc.violation(f"{short}:reused-token-wrong-result" if mode == "present" else f"{short}:absent-nonempty",
+                                  f"{scheme}: a token object already used on an earlier index under the same key returns "
+                                  f"{len(got)} ids on the new index, expected {len(want)}",
+                                  sse.case_desc(scheme, cid, cfg_at_setup, cls, shadow, {"earlier_db": prev["db"], "keyword": w}))
         earlier_keywords = [w for w in (prev["db"] if same_key else {}) if w not in shadow]
         if st.error is None:
-            objects[ck] = {"obj": st.sse, "key": st.key, "db": shadow, "edb": st.edb}
+            toks = {}
+            try:
+                for w in rng.sample(sorted(shadow), min(3, len(shadow))):
+                    tk = st.sse.TokenGen(st.key, w)
+                    st.sse.Search(st.edb, tk).get_result_list()
+                    toks[w] = tk
+            except Exception:
+                toks = {}
+            objects[ck] = {"obj": st.sse, "key": st.key, "db": shadow, "edb": st.edb, "tokens": toks}
             key_by_shape[shape] = {"key": st.key, "db": shadow, "ck": ck}
             if len(objects) > 48:
                 objects.pop(next(iter(objects)))
@@ -401,6 +430,175 @@ def run_feedback(spec, acc, ctx, mode):
                               f"expected {len(shadow[w])}", dict(case, keyword=w))
 
 
+LONG_LENGTHS = [254, 255, 256, 257, 300, 511, 512, 513, 1000, 4096, 65537]
+
+
+def run_long_keywords(spec, acc, ctx, mode):
+    """Keywords of hundreds to tens of thousands of bytes (the seven schemes without a keyword-length limit; SSE-1 / SSE-2
+    with param_l = 600), several of which share their first 254 / 255 / 256 / 300 / 1000 bytes. Stored siblings must each
+    get their own list; absent siblings (same long prefix, other tail; truncations; extensions) must get nothing."""
+    rng = ctx.rng
+    gen.MIXED_ID_SIZES = False
+    i = spec.get("index", 0)
+    while not ctx.out_of_time():
+        scheme = gen.SCHEMES[i % len(gen.SCHEMES)]
+        short = gen.SHORT[scheme]
+        i += 1
+        cfg = gen.default_config(scheme)
+        lengths = list(LONG_LENGTHS)
+        if scheme in ("CGKO06.SSE1", "CGKO06.SSE2"):
+            cfg.update(param_l=600)
+            lengths = [254, 255, 256, 257, 300, 511, 512, 513, 599, 600]
+            if scheme == "CGKO06.SSE1":
+                cfg.update(param_s=64, param_dictionary_size=16)
+        cp = gen.caps(scheme, cfg)
+        isz = cp["id_size"]
+        pool = gen.gen_ids(rng, isz, 40)
+        db, absent = {}, []
+        base_len = rng.choice(lengths)
+        base = bytes([rng.randrange(1, 256)]) + rng.randbytes(base_len - 1)
+        cut = rng.choice([c for c in (254, 255, 256, 300, 1000, base_len - 1) if c < base_len])
+        sib = base[:cut] + bytes([base[cut] ^ 0x55]) + rng.randbytes(base_len - cut - 1)
+        db[base] = pool[0:3]
+        db[sib] = pool[3:5]                               # a STORED sibling with the same first `cut` bytes
+        db[rng.randbytes(3).replace(b"\x00", b"\x01") or b"k"] = pool[5:7]
+        other_len = rng.choice(lengths)
+        db[bytes([7]) + rng.randbytes(other_len - 1)] = pool[7:8]
+        for c in (254, 255, 256, 257, 300, 512, 1000, base_len - 1):
+            if c < base_len:
+                absent.append((base[:c], f"truncated-to-{c if c != base_len - 1 else 'len-1'}"))
+                absent.append((base[:c] + rng.randbytes(base_len - c), f"same-first-{c if c != base_len - 1 else 'len-1'}-bytes"))
+        absent += [(base + b"x", "extended"), (base + base, "doubled"), (base[:-1] + bytes([base[-1] ^ 1]), "last-bit")]
+        absent = [(w, f) for (w, f) in absent if w and w[0] != 0 and w not in db and len(w) <= cp["kw_limit"]
+                  or (w and w[0] != 0 and w not in db and scheme not in ("CGKO06.SSE1", "CGKO06.SSE2"))]
+        if scheme == "CGKO06.SSE2":
+            cfg["param_n"] = len({x for v in db.values() for x in v}) + 1
+        if scheme in ("CGKO06.SSE1", "CGKO06.SSE2"):
+            if any(len(w) > cfg["param_l"] for w in db):
+                continue
+            absent = [(w, f) for (w, f) in absent if len(w) <= cfg["param_l"]]
+        shadow = copy.deepcopy(db)
+        st = sse.Setup(scheme, copy.deepcopy(cfg), db)
+        acc.count("long_keywords.cases")
+        acc.add("long_keywords.schemes", short)
+        case = sse.case_desc(scheme, "long-keywords", cfg, "long-keywords", shadow)
+        if st.error is not None:
+            if mode == "present":
+                acc.violation(sse.setup_signature(scheme, st) + ":long-keywords",
+                              f"{scheme} {st.phase} raised {type(st.error).__name__}: {st.error} on a database with keywords "
+                              f"of {sorted(len(w) for w in shadow)} bytes", case)
+            continue
+        words = [(w, "stored") for w in shadow] if mode == "present" else rng.sample(absent, min(8, len(absent)))
+        for w, fam in words:
+            acc.count("long_keywords.searches")
+            want = shadow.get(w, []) if mode == "present" else []
+            try:
+                got = st.search(w)
+            except Exception as e:
+                acc.violation(f"{short}:{'search' if mode == 'present' else 'absent-search'}-raised:{exc_site(e)}",
+                              f"{scheme}: search of a {len(w)}-byte keyword ({fam}) raised {type(e).__name__}: {e}",
+                              dict(case, keyword=w, family=fam))
+                continue
+            if not sse.result_matches(scheme, got, want):
+                acc.violation(f"{short}:wrong-result:long-keyword" if mode == "present" else f"{short}:absent-nonempty",
+                              f"{scheme}: a {len(w)}-byte keyword ({fam}; the database holds keywords of "
+                              f"{sorted(len(x) for x in shadow)} bytes, two of which share their first {cut} bytes) returned "
+                              f"{len(got)} ids, expected {len(want)}", dict(case, keyword=w, family=fam))
+
+
+def run_threads(spec, acc, ctx, mode):
+    """ONE scheme object, one key, one index: three threads generate tokens and search their own word lists at the same
+    moment (a server thread pool), with forced switch points in schemes/ and toolkit/. Every answer as if alone."""
+    import os
+    from vlib import instrument
+    rng = ctx.rng
+    repo = os.environ.get("VERIF_REPO", "/repo")
+    gen.MIXED_ID_SIZES = False
+    for scheme in [x for _ in range(spec.get("rounds", 1)) for x in spec["schemes"]]:
+        short = gen.SHORT[scheme]
+        cfg = gen.default_config(scheme)
+        if scheme == "CGKO06.SSE1":
+            cfg.update(param_s=64, param_dictionary_size=16)
+        cp = gen.caps(scheme, cfg)
+        try:
+            db, info = gen.make_db(rng, scheme, cfg, "zipf", 10)
+        except ValueError:
+            continue
+        shadow = copy.deepcopy(db)
+        st = sse.Setup(scheme, copy.deepcopy(cfg), db)
+        if st.error is not None:
+            continue
+        absent = [w for w, _ in gen.absent_keywords(rng, shadow, cp["kw_limit"], k_random=3, k_close=5)]
+        present = list(shadow)
+        lists = []
+        for t in range(3):
+            # every thread mixes stored and absent keywords (each check judges its own kind, the other kind is traffic)
+            ws = [rng.choice(present) for _ in range(400)] + [rng.choice(absent) for _ in range(400)]
+            rng.shuffle(ws)
+            lists.append(ws)
+        bad = []
+        done = [0]
+
+        def worker(ws):
+            def go():
+                import time as _t
+                t_end = _t.monotonic() + spec.get("seconds_per_scheme", 4) / 5
+                for w in ws:
+                    if bad or _t.monotonic() > t_end:
+                        return
+                    done[0] += 1
+                    try:
+                        # a server's worker threads only search (tokens arrive ready-made); a client's also derive tokens
+                        tk = ready.get(w) if search_only[0] else None
+                        got = st.sse.Search(st.edb, tk if tk is not None else st.sse.TokenGen(st.key, w)).get_result_list()
+                    except Exception as e:      # noqa
+                        bad.append((w, "raised", exc_site(e), f"{type(e).__name__}: {e}"))
+                        return
+                    if not sse.result_matches(scheme, got, shadow.get(w, [])):
+                        bad.append((w, "wrong", "", f"{len(got)} ids, expected {len(shadow.get(w, []))}"))
+            return go
+        errs, nyields = [], 0
+        search_only = [False]
+        try:
+            ready = {w: st.sse.TokenGen(st.key, w) for w in set(present) | set(absent)}
+        except Exception:
+            ready = {}
+        for every in (3, 3, 17, 17, 61):      # switch points from "every third statement" to "now and then"
+            if bad:
+                break
+            search_only[0] = not search_only[0]
+            with instrument.YieldInjector(repo, subdirs=("schemes", "toolkit"), every=every) as yi:
+                errs += instrument.run_threads([worker(ws) for ws in lists], timeout=120)
+            nyields += yi.yields
+            for ws in lists:
+                rng.shuffle(ws)
+
+        class yi:       # noqa
+            yields = nyields
+        acc.count("threads.cases")
+        acc.count("threads.searches", done[0])
+        acc.count("threads.forced_switch_points", yi.yields)
+        acc.add("threads.schemes", short)
+        if any(isinstance(e, TimeoutError) for e in errs):
+            acc.count("threads.watchdog")
+            return
+        case = sse.case_desc(scheme, "threads", cfg, "threads", shadow, {"threads": True})
+        for w, what, site, msg in [b for b in bad if (b[0] in shadow) == (mode == "present")][:1] or bad[:1]:
+            is_present = w in shadow
+            if is_present != (mode == "present"):
+                # judged by the other property's check; recorded
+                acc.note(f"{short}: a {'present' if is_present else 'absent'} keyword went wrong under threads: {msg}")
+                continue
+            if what == "raised":
+                acc.violation(f"{short}:{'search' if is_present else 'absent-search'}-raised-when-searched-from-threads:{site}",
+                              f"{scheme}: three threads search one scheme object and one index at the same moment: the "
+                              f"search of a{' stored' if is_present else 'n absent'} keyword raised {msg}", dict(case, keyword=w))
+            else:
+                acc.violation(f"{short}:{'wrong-result' if is_present else 'absent-nonempty'}:searched-from-threads",
+                              f"{scheme}: three threads search one scheme object and one index at the same moment: a"
+                              f"{' stored' if is_present else 'n absent'} keyword returned {msg}", dict(case, keyword=w))
+
+
 def replay_steered(case, acc, ctx, mode):
     from vlib.instrument import Steer
     st_ = Steer(ctx.rng, p=0.3, cap=12)
@@ -494,6 +692,15 @@ def finish(m, tier, mode, min_searches):
     if c.get("feedback.searches", 0) < 300 or len(m["sets"].get("feedback.schemes", [])) < need:
         inc.append(f"the feedback-keyword workload compared fewer than 300 searches or reached fewer than {need} schemes: "
                    f"{sorted(m['sets'].get('feedback.schemes', []))}")
+    cov["long_keywords"] = {k[14:]: v for k, v in c.items() if k.startswith("long_keywords.")}
+    cov["searches_from_three_threads_on_one_object"] = {k[8:]: v for k, v in c.items() if k.startswith("threads.")}
+    cov["token_objects_reused_on_a_second_index"] = c.get("token_objects_reused_on_a_second_index", 0)
+    if len(m["sets"].get("long_keywords.schemes", [])) < 9 or c.get("long_keywords.searches", 0) < 200:
+        inc.append("the long-keyword workload did not reach the nine schemes / 200 searches")
+    if len(m["sets"].get("threads.schemes", [])) < 9 or c.get("threads.forced_switch_points", 0) < 1000:
+        inc.append("searches from three threads did not reach the nine schemes / 1000 forced switches")
+    if c.get("token_objects_reused_on_a_second_index", 0) < 100:
+        inc.append("fewer than 100 token objects were reused on a second index")
     cov["steered_values"] = {k[8:]: v for k, v in c.items() if k.startswith("steered.") and k.count(".") == 1}
     if c.get("steered.prf_outputs_forced", 0) < 200 or c.get("steered.searches", 0) < 500:
         inc.append("the steered-values workload forced fewer than 200 PRF outputs or compared fewer than 500 searches")
